@@ -120,7 +120,8 @@ TAcceptRet == /\ Ev.e = "AcceptRet"
                  ELSE /\ phase' = [phase EXCEPT ![Ev.r] = "ended"]
                       /\ result' = [result EXCEPT ![Ev.r] = [kind |-> Ev.kind, cause |-> Ev.cause]]
                       /\ guard' = IF guard = Ev.r THEN 0 ELSE guard
-                      /\ nc' = (nc \/ ~AcceptRet(Ev.r, [kind |-> Ev.kind, cause |-> Ev.cause]))
+                      /\ nc' = (nc \/ ~(\/ AcceptRet(Ev.r, [kind |-> Ev.kind, cause |-> Ev.cause])
+                                         \/ (Ev.exc = "SystemExit" /\ AcceptAbort(Ev.r, [kind |-> Ev.kind, cause |-> Ev.cause]))))
 TSigint == /\ Ev.e = "Sigint" /\ sigint' = TRUE
            /\ UNCHANGED <<phase, guard, pst, starts, endhow, cleanleft, adoptret, shut, result, xst, h, where, xobs, segopen, marks>>
            /\ nc' = (nc \/ phase[1] # "running")
